@@ -27,8 +27,8 @@ func init() {
 		ID: "C02", Level: "exploration", Primary: "past_basic_validation", EvalCount: "inputs",
 		Rule: "inputs = (a) the complete single-point shape/type mutation set of every canonical request (7 operations x 12 control variants, plus 18 well-known control OIDs x 4 value shapes mutated within the controls subtree; every node replaced by ~85 BER node kinds, " +
 			"deleted, duplicated, swapped, child lists truncated/extended/reversed, class/tag/constructed-bit flipped, 14 length-octet corruptions), double-point mutations (sampled in quick; complete within " +
-			"the controls subtree and the protocolOp subtree in thorough), (b) seeded random byte streams, byte-level mutations and splices of canonical encodings, two frames on one connection and hostile frames behind a valid Bind on the same connection (plus Go native coverage-guided fuzzing in thorough). " +
-			"Each input is delivered through the in-memory decode hook, over TCP to a server with panic recovery enabled (oracle: 'Caught panic' log record) and over TCP to a server with recovery disabled " +
+			"the controls subtree and the protocolOp subtree in thorough), (b) seeded random byte streams, byte-level mutations and splices of canonical encodings, two frames on one connection and hostile frames behind a valid Bind on the same connection, well-formed canonical requests with lists of 8/9/16/17/33 elements, and a dictionary of 36 contents (attribute options, case-mapping-sensitive bytes, wildcards, escapes, NULs, invalid UTF-8) in every string position of the control-less canonical requests (plus Go native coverage-guided fuzzing in thorough). " +
+			"Each input is delivered through the in-memory decode hook, over TCP to servers with panic recovery enabled, logging at Error and at Debug level (oracle: 'Caught panic' log record) and over TCP to a server with recovery disabled " +
 			"(oracle: process death). distinct_nontrivial = distinct inputs (by content hash) that got past basicValidation, i.e. were decoded by gldap's own request decoder",
 		Assume: []string{"a panic whose stack has no gldap frame above the runtime (e.g. stack exhaustion inside asn1-ber) is outside 'gldap's own' decoding and is reported as inconclusive",
 			"declared lengths above 16 MiB are not generated/fed (asn1-ber allocates the declared length up front)"},
